@@ -68,14 +68,16 @@ def wild_float(rng, nan_ok: bool) -> float:
 
 
 def gen_height(rng) -> float:
-    return rng.choice([1.0, 1.0, 1.0, 1.0, 0.5, 2.0, 0.75, 1.0004, 0.9995, 1.001, 0.999, 1.0011, 0.9989, any_finite(rng), -1.0, 1e-3])
+    if rng.random() < 0.04:  # within the comparison tolerance of 1: dropped by __repr__ (outside the hypothesis of the output clause)
+        return rng.choice([1.0004, 0.9995, 1.001, 0.999])
+    return rng.choice([1.0, 1.0, 1.0, 1.0, 0.5, 2.0, 0.75, 1.0011, 0.9989, any_finite(rng), -1.0, 1e-3])
 
 
 def grid_weight(rng, decimals: int) -> float:
     k = rng.random()
     if k < 0.5:
         return 1.0
-    if k < 0.6:  # on the grid but within the tolerance of 1: the weight is omitted from the text (not representable)
+    if k < 0.53:  # on the grid but within the tolerance of 1: the weight is omitted from the text (not representable)
         return float(f"{1.0 + rng.choice([-1, 1]) * 10.0 ** -decimals:.{decimals}f}")
     w = rng.choice([0.0, 0.5, 0.25, 0.3, 0.75, 2.0, rng.uniform(0, 1), rng.uniform(0, 3), 1.002, 0.998, 12.5])
     return float(f"{w:.{decimals}f}")
@@ -211,7 +213,7 @@ def gen_engine(fl, rng):
             text = f"if {antecedent(rng.choice([0, 1, 1, 2]))} then {cons}" + (f" with {w:.{decimals}f}" if rng.random() < 0.8 or w != 1.0 else "")
             rule = fl.Rule.create(text)
             rule.weight = w
-            rule.enabled = rng.random() > 0.08
+            rule.enabled = rng.random() > 0.03
             rules.append(rule)
         act = rng.choice(["General", "General", "First", "Last", "Highest", "Lowest", "Proportional", "Threshold"])
         if act in ("First", "Last"):
@@ -550,25 +552,31 @@ def rebuild(fl, text: str, alias: str, encapsulated: bool, is_engine: bool, clas
 
 
 # =============================================================================================== the check
-class State:
+class Sink:
+    """What one engine's checks produce (picklable: the engines are checked in worker processes)."""
+
     def __init__(self):
         self.evaluations = 0
         self.oracle_violations = 0
         self.dist: dict[str, int] = {}
-        self.samples: list = []
-        self.cases_a: list[str] = []  # (alias, v, e, v2)
-        self.cases_b: list[str] = []  # (alias, v, module, v2)
-        self.cases_c: list[str] = []  # (alias, e, expected)
-        self.index: list = []
-        self.index_b: list = []
+        self.violations: list = []  # (signature, what, replay)
+        self.broken: list = []  # (kind, name, detail)
+        self.cases_a: list = []  # (literal, index entry)
+        self.cases_b: list = []
         self.weights: dict[str, float] = {}
         self.pascal: dict[str, str] = {}
         self.nontrivial = 0
         self.formatted = {"black": 0, "unavailable": 0}
         self.f5_hits = 0
+        self.sample = None
 
     def count(self, key, n=1):
         self.dist[key] = self.dist.get(key, 0) + n
+
+    def violation(self, sig, what, replay):
+        self.violations.append((sig, what, replay))
+        if sig != "pyrepr:rule-enabled-lost":
+            self.oracle_violations += 1
 
 
 def engine_replay(fl, engine, info, alias, mode, fmt):
@@ -578,8 +586,14 @@ def engine_replay(fl, engine, info, alias, mode, fmt):
             "rows": [[repr(x) for x in row] for row in info["rows"]], "alias": alias, "mode": mode, "formatted": fmt}
 
 
-def check_engine(fl, ctx, verdict, st: State, engine, info, formatted_combo):
-    """Direct oracle + case collection for one engine."""
+def library_names(fl) -> set:
+    import fuzzylite
+
+    return {n for n in vars(fuzzylite) if not n.startswith("_")}
+
+
+def check_engine(fl, sk: Sink, engine, info, formatted_combo, alias_m):
+    """Direct oracle for one engine + the model cases of the alias `alias_m`."""
     rows = info["rows"]
     rep_ok = representable(fl, engine)
     disabled = [(i, j) for i, rb in enumerate(engine.rule_blocks) for j, r in enumerate(rb.rules) if not r.enabled]
@@ -587,113 +601,167 @@ def check_engine(fl, ctx, verdict, st: State, engine, info, formatted_combo):
     dump0 = val_lit(fl, engine)
     for rb in engine.rule_blocks:
         for r in rb.rules:
-            st.weights[bits(r.weight)] = float(r.weight)
-    st.pascal[engine.name] = fl.Op.pascal_case(engine.name)
+            sk.weights[bits(r.weight)] = float(r.weight)
+    cname = fl.Op.pascal_case(engine.name)
+    sk.pascal[engine.name] = cname
     texts = {}
     for alias in ALIASES:
         with with_alias(fl, alias):
             texts[(alias, "repr", False)] = repr(engine)
             texts[(alias, "encapsulated", False)] = fl.PythonExporter(formatted=False, encapsulated=True).to_string(engine)
-            if (alias, "repr") == formatted_combo or (alias, "encapsulated") == formatted_combo:
+            if alias == formatted_combo[0]:
                 mode = formatted_combo[1]
+                t = fl.PythonExporter(formatted=True, encapsulated=(mode == "encapsulated")).to_string(engine)
                 try:
                     import black  # noqa: F401
 
-                    texts[(alias, mode, True)] = fl.PythonExporter(formatted=True, encapsulated=(mode == "encapsulated")).to_string(engine)
-                    st.formatted["black"] += 1
-                except ModuleNotFoundError:
-                    # without black the exporter logs an error and returns the unformatted text
-                    t = fl.PythonExporter(formatted=True, encapsulated=(mode == "encapsulated")).to_string(engine)
-                    st.formatted["unavailable"] += 1
+                    texts[(alias, mode, True)] = t
+                    sk.formatted["black"] += 1
+                except ModuleNotFoundError:  # without black the exporter logs an error and returns the code unformatted
+                    sk.formatted["unavailable"] += 1
                     if t != texts[(alias, mode, False)]:
-                        verdict.add_violation("pyrepr:format-fallback", "formatted export without black differs from the unformatted text", engine_replay(fl, engine, info, alias, mode, True))
-    rebuilt_dump = {}
+                        sk.violation("pyrepr:format-fallback", "formatted export without black differs from the unformatted text", engine_replay(fl, engine, info, alias, mode, True))
+    sk.sample = texts[("fl", "repr", False)][:400]
+    plain_dump = {}
+    model_parts = {}
     outputs0 = None
-    for (alias, mode, fmt), text in texts.items():
-        st.evaluations += 1
-        st.count(f"engine:{alias or 'qualified'}:{mode}:{'black' if fmt else 'plain'}")
+    for (alias, mode, fmt), text in sorted(texts.items(), key=lambda kv: (kv[0][0], kv[0][1] != "repr", kv[0][2])):
+        sk.evaluations += 1
+        sk.count(f"engine:{alias or 'qualified'}:{mode}:{'black' if fmt else 'plain'}")
         rp = lambda: engine_replay(fl, engine, info, alias, mode, fmt)
         try:
-            e2 = rebuild(fl, text, alias, mode == "encapsulated", True, fl.Op.pascal_case(engine.name))
+            e2 = rebuild(fl, text, alias, mode == "encapsulated", True, cname)
         except Exception as ex:
-            verdict.add_violation(f"pyrepr:engine-rebuild:{type(ex).__name__}", f"exported engine text does not evaluate ({alias!r}, {mode}, formatted={fmt}): {type(ex).__name__}: {str(ex)[:200]}", rp())
-            st.oracle_violations += 1
+            if mode == "encapsulated" and alias == "*" and cname in library_names(fl):
+                sk.violation("pyrepr:encapsulated-name-shadows-library", f"engine named {engine.name!r}: `class {cname}:` shadows fuzzylite.{cname} after `from fuzzylite import *`: {type(ex).__name__}: {str(ex)[:120]}", rp())
+            else:
+                sk.violation(f"pyrepr:engine-rebuild:{type(ex).__name__}", f"exported engine text does not evaluate ({alias!r}, {mode}, formatted={fmt}): {type(ex).__name__}: {str(ex)[:200]}", rp())
             continue
-        if not fmt:
-            rebuilt_dump[(alias, mode)] = val_lit(fl, e2)  # before the rebuilt engine is processed
-        with with_alias(fl, alias):
-            r0, r2 = repr(engine), repr(e2)
-        if r0 != r2:
-            verdict.add_violation("pyrepr:engine-repr", f"repr of the rebuilt engine differs ({alias!r}, {mode}, formatted={fmt})", rp())
-            st.oracle_violations += 1
+        d2 = val_lit(fl, e2)  # before the rebuilt engine is processed
+        if mode == "repr" and not fmt:
+            plain_dump[alias] = d2
+            with with_alias(fl, alias):
+                r2 = repr(e2)
+            if r2 != text:
+                sk.violation("pyrepr:engine-repr", f"repr of the rebuilt engine differs ({alias!r})", rp())
+        elif d2 != plain_dump.get(alias):
+            # the encapsulated / formatted text must build the same object as the plain repr under the same alias
+            sk.violation("pyrepr:engine-encapsulated", f"{mode} (formatted={fmt}) export builds a different engine than repr under alias {alias!r}", rp())
         if str(e2) != fll0:
-            verdict.add_violation("pyrepr:engine-fll", f"FLL of the rebuilt engine differs ({alias!r}, {mode}, formatted={fmt})", rp())
-            st.oracle_violations += 1
+            sk.violation("pyrepr:engine-fll", f"FLL of the rebuilt engine differs ({alias!r}, {mode}, formatted={fmt})", rp())
         lost = [(i, j) for (i, j) in disabled if e2.rule_blocks[i].rules[j].enabled]
         if lost:
-            st.f5_hits += 1
-            verdict.add_violation("pyrepr:rule-enabled-lost", f"Rule.enabled=False is not exported: rule {lost[0]} of the rebuilt engine is enabled ({alias!r}, {mode})", rp())
+            sk.f5_hits += 1
+            sk.violation("pyrepr:rule-enabled-lost", f"Rule.enabled=False is not exported: rule {lost[0]} of the rebuilt engine is enabled ({alias!r}, {mode})", rp())
         elif rep_ok:
             if outputs0 is None:
                 outputs0 = run_rows(engine, rows)  # the original is processed once, after everything was printed and dumped
                 if any(o[0] != "EXC" and any(b != "nan" for b in o) for o in outputs0):
-                    st.nontrivial += 1
+                    sk.nontrivial += 1
             out2 = run_rows(e2, rows)
             if out2 != outputs0:
                 k = next(i for i, (a, b) in enumerate(zip(outputs0, out2)) if a != b)
-                verdict.add_violation("pyrepr:engine-outputs", f"outputs of the rebuilt engine differ on row {k} ({alias!r}, {mode}, formatted={fmt}): {outputs0[k]} vs {out2[k]}", rp())
-                st.oracle_violations += 1
-        if fmt:
-            # black only re-lays out: same tree
-            plain = texts[(alias, mode, False)]
-            if ast.dump(ast.parse(plain)) != ast.dump(ast.parse(text)):
-                verdict.add_broken("correspondence", "black-preserves-tree", f"formatted and unformatted exports parse to different trees ({alias!r}, {mode})")
-    return dump0, texts, rebuilt_dump
+                sk.violation("pyrepr:engine-outputs", f"outputs of the rebuilt engine differ on row {k} ({alias!r}, {mode}, formatted={fmt}): {outputs0[k]} vs {out2[k]}", rp())
+        if fmt and ast.dump(ast.parse(texts[(alias, mode, False)])) != ast.dump(ast.parse(text)):
+            sk.broken.append(("correspondence", "black-preserves-tree", f"formatted and unformatted exports parse to different trees ({alias!r}, {mode})"))
+        if alias == alias_m and not fmt:
+            model_parts[mode] = (text, d2)
+    if "repr" in model_parts:
+        try:
+            text, d2 = model_parts["repr"]
+            e_plain = parse_expr(text)
+            enc = "None"
+            if "encapsulated" in model_parts and model_parts["encapsulated"][1] == d2:
+                enc = enc_header(parse_module(model_parts["encapsulated"][0]), e_plain)
+            sk.cases_a.append((f"({cstr(alias_m)}, {dump0}, {expr_lit(e_plain)}, {d2}, {enc})", ("A", "engine", alias_m, text[:300])))
+        except (Unparsable, DumpError, SyntaxError) as ex:
+            sk.broken.append(("correspondence", "C15:unparsable-engine", f"{type(ex).__name__}: {ex}"))
 
 
-def check_components(fl, ctx, verdict, st: State, engine, alias_for_model):
-    fllx = fl.FllExporter()
+def enc_header(module, e_plain) -> str:
+    """The encapsulated module without its expression (which must be the plain repr's): Some (import, class/def header)."""
+    if len(module) != 2 or module[1][-1] != e_plain:
+        raise Unparsable("encapsulated module does not wrap the expression that repr prints")
+    imp, body = module
+    if body[0] == "class":
+        return f"(Some ({stmt_lit(imp)}, inl ({cstr(body[1])}, {cstr(body[2])})))"
+    return f"(Some ({stmt_lit(imp)}, inr ({cstr(body[1])}, {cpath(body[2])})))"
+
+
+def check_components(fl, sk: Sink, engine, alias_m):
+    """Every component on its own: all four aliases for the first component of each kind, the rotating alias for the rest."""
+    seen = set()
     for kind, c in components(engine):
-        for alias in ALIASES:
-            st.evaluations += 1
-            st.count(f"component:{kind}")
+        cls = type(c).__name__
+        first = (kind, cls) not in seen
+        seen.add((kind, cls))
+        for alias in (ALIASES if first else [alias_m]):
+            sk.evaluations += 1
+            sk.count(f"component:{kind}")
+            with_model = alias == alias_m
             with with_alias(fl, alias):
                 text = repr(c)
-                enc = fl.PythonExporter(formatted=False, encapsulated=True).to_string(c) if alias == alias_for_model else None
+                enc = fl.PythonExporter(formatted=False, encapsulated=True).to_string(c) if (first or with_model) else None
             rp = {"component": kind, "repr": text, "alias": alias}
             try:
                 c2 = rebuild(fl, text, alias, False, False, None)
                 c3 = rebuild(fl, enc, alias, True, False, None) if enc is not None else None
             except Exception as ex:
-                verdict.add_violation(f"pyrepr:{kind}-rebuild:{type(ex).__name__}", f"repr of a {kind} does not evaluate under alias {alias!r}: {text[:120]}: {type(ex).__name__}: {str(ex)[:120]}", rp)
-                st.oracle_violations += 1
+                sk.violation(f"pyrepr:{kind}-rebuild:{type(ex).__name__}", f"repr of a {kind} does not evaluate under alias {alias!r}: {text[:120]}: {type(ex).__name__}: {str(ex)[:120]}", rp)
                 continue
+            if c3 is not None and val_lit(fl, c3) != val_lit(fl, c2):
+                sk.violation(f"pyrepr:{kind}-encapsulated", f"encapsulated export of a {kind} builds a different object than its repr under alias {alias!r}: {text[:120]}", rp)
             for cc in (c2, c3):
                 if cc is None:
                     continue
                 with with_alias(fl, alias):
                     r2 = repr(cc)
                 if r2 != text:
-                    verdict.add_violation(f"pyrepr:{kind}-repr", f"repr of the rebuilt {kind} differs under alias {alias!r}: {text[:100]} -> {r2[:100]}", rp)
-                    st.oracle_violations += 1
+                    sk.violation(f"pyrepr:{kind}-repr", f"repr of the rebuilt {kind} differs under alias {alias!r}: {text[:100]} -> {r2[:100]}", rp)
                 if str(cc) != str(c):
-                    verdict.add_violation(f"pyrepr:{kind}-fll", f"FLL of the rebuilt {kind} differs under alias {alias!r}: {str(c)[:100]} -> {str(cc)[:100]}", rp)
-                    st.oracle_violations += 1
+                    sk.violation(f"pyrepr:{kind}-fll", f"FLL of the rebuilt {kind} differs under alias {alias!r}: {str(c)[:100]} -> {str(cc)[:100]}", rp)
                 if kind == "rule" and not c.enabled and cc.enabled:
-                    st.f5_hits += 1
-                    verdict.add_violation("pyrepr:rule-enabled-lost", f"Rule.enabled=False is not exported: {text[:120]}", rp)
-            if alias == alias_for_model:
+                    sk.f5_hits += 1
+                    sk.violation("pyrepr:rule-enabled-lost", f"Rule.enabled=False is not exported: {text[:120]}", rp)
+            if with_model:
                 try:
-                    st.cases_a.append(f"({cstr(alias)}, {val_lit(fl, c, engine)}, {expr_lit(parse_expr(text))}, {val_lit(fl, c2)})")
-                    st.index.append(("A", kind, alias, text[:200]))
-                    st.cases_b.append(f"({cstr(alias)}, {val_lit(fl, c, engine)}, {vlib.coq_list(stmt_lit(s) for s in parse_module(enc))}, {val_lit(fl, c3)})")
-                    st.index_b.append(("B", kind, alias, enc[:200]))
+                    e_plain = parse_expr(text)
+                    d2 = val_lit(fl, c2)
+                    enc_lit = "None"
+                    if first and c3 is not None and val_lit(fl, c3) == d2:
+                        enc_lit = enc_header(parse_module(enc), e_plain)
+                    sk.cases_a.append((f"({cstr(alias)}, {val_lit(fl, c, engine)}, {expr_lit(e_plain)}, {d2}, {enc_lit})", ("A", kind, alias, text[:200])))
                 except (Unparsable, DumpError, SyntaxError) as ex:
-                    verdict.add_broken("correspondence", f"C15:unparsable-{kind}", f"{type(ex).__name__}: {ex}: {text[:300]}")
+                    sk.broken.append(("correspondence", f"C15:unparsable-{kind}", f"{type(ex).__name__}: {ex}: {text[:300]}"))
     # the exporter's own entry points, including the None cases
     px = fl.PythonExporter(formatted=False)
     if px.norm(None) != "None" or px.activation(None) != "None" or px.defuzzifier(None) != "None":
-        verdict.add_violation("pyrepr:none-component", "PythonExporter.norm/activation/defuzzifier(None) is not 'None'", {})
+        sk.violation("pyrepr:none-component", "PythonExporter.norm/activation/defuzzifier(None) is not 'None'", {})
+
+
+def work_engine(job):
+    """One engine, in a worker process: generation (from its own seed), direct oracle, model cases."""
+    import random
+
+    import fuzzylite as fl
+
+    i, seed = job
+    rng = random.Random(seed)
+    sk = Sink()
+    combos = [(a, m) for a in ALIASES for m in ("repr", "encapsulated")]
+    try:
+        engine, info = gen_engine(fl, rng)
+        sk.count("engines:wild" if info["wild"] else "engines:sane")
+        for t in all_terms(engine):
+            sk.count("term:" + type(t).__name__)
+        alias_m = ALIASES[i % len(ALIASES)]
+        check_components(fl, sk, engine, alias_m)  # first: the engine has not been processed yet, every dump shows the freshly built state
+        check_engine(fl, sk, engine, info, combos[i % len(combos)], alias_m)
+    except Exception:
+        import traceback
+
+        sk.broken.append(("harness", "harness-crash", f"engine {i} seed {seed}: " + traceback.format_exc()))
+    return sk
 
 
 # ----------------------------------------------------------------------------------------------- hand-made calls
@@ -735,7 +803,7 @@ def gen_variants(fl, rng, n: int):
 
     def value(alias, ann, depth=0):
         if ann == "str":
-            return ("str", rng.choice(["a", "", "x y", "it's", "in0 + 1"]))
+            return ("str", rng.choice(STRING_POOL[:6]))
         if ann in ("float", "Scalar"):
             return fval(alias)
         if ann == "int":
@@ -810,9 +878,33 @@ def gen_variants(fl, rng, n: int):
                 kws = []
             elif k < 0.17 and kws:
                 kws.append(kws[0])  # keyword argument repeated
-        if name in ("Engine",) and rng.random() < 0.3:
-            kws = [kw for kw in kws if kw[0] != "load"] + [("load", ("bool", False))]
+        if name == "Engine":
+            # whether a rule loads depends on the engine's variables (the model takes it from `rule_ok`): hand-made engines carry
+            # rules only in the dedicated branch below
+            pos, kws = [strip_rules(x) for x in pos], [(k_, strip_rules(x)) for k_, x in kws]
+            if rng.random() < 0.3:
+                kws = [kw for kw in kws if kw[0] != "load"] + [("load", ("bool", False))]
         return ("call", qual(alias, name), pos, kws)
+
+    def strip_rules(t):
+        if t[0] == "list":
+            return ("list", [strip_rules(x) for x in t[1]])
+        if t[0] == "call" and t[1][-1] == "RuleBlock":
+            return ("call", t[1], t[2][:7], [kv for kv in t[3] if kv[0] != "rules"])
+        return t
+
+    def engine_with_rules(alias):
+        good = rng.random() < 0.6
+        loadkw = rng.choice([[], [], [("load", ("bool", True))], [("load", ("bool", False))]])
+        rules = [("call", qual(alias, "Rule") + ["create"], [("raw", "if a is b then c is d" + rng.choice(["", " with 0.500"]))], [])]
+        if not good:
+            rules.insert(rng.choice([0, 1]), ("call", qual(alias, "Rule") + ["create"], [("raw", "if nope is b then c is d")], []))
+        terms_out = [("call", qual(alias, "Constant"), [("str", "d"), F(1.0)], []), ("call", qual(alias, "Linear"), [("str", "lin"), ("list", [F(1.0), F(2.0)])], []),
+                     ("call", qual(alias, "Function"), [("str", "fn"), ("str", rng.choice(["a*b", "a*b", "1 +"]))], [])]
+        return ("call", qual(alias, "Engine"), [("str", "e")],
+                [("input_variables", ("list", [("call", qual(alias, "InputVariable"), [("str", "a")], [("terms", ("list", [("call", qual(alias, "Triangle"), [("str", "b"), F(0.0), F(1.0)], [])]))])])),
+                 ("output_variables", ("list", [("call", qual(alias, "OutputVariable"), [], [("name", ("str", "c")), ("terms", ("list", terms_out[: rng.choice([1, 2, 3])]))])])),
+                 ("rule_blocks", ("list", [("call", qual(alias, "RuleBlock"), [("str", "rb")], [("rules", ("list", rules))])]))] + loadkw)
 
     names = list(classes)
     for _ in range(n):
@@ -830,7 +922,9 @@ def gen_variants(fl, rng, n: int):
             arg = ("raw", t) if rng.random() < 0.8 else ("str", t)
             tail = [("engine", ("none",))] if rng.random() < 0.1 else []
             out.append((alias, ("call", qual(alias, "Rule") + ["create"], [arg] if rng.random() < 0.8 else [], tail if rng.random() < 0.8 or tail else [("text", arg)])))
-        elif k < 0.3:  # unknown names
+        elif k < 0.28:  # engines whose rules load or not
+            out.append((alias, engine_with_rules(alias)))
+        elif k < 0.34:  # unknown names
             out.append((alias, rng.choice([("call", qual(alias, "Triangle")[:-1] + ["Node"], [], []), ("name", ["nope", "inf"]), ("call", ["Triangle" if alias != "*" else "fl", "x"], [], []),
                                            ("call", lib(alias, "array"), [("list", [F(1.0), ("list", [])])], []), ("neg", ("str", "a")), ("call", lib(alias, "inf"), [], [])])))
         else:
@@ -838,7 +932,18 @@ def gen_variants(fl, rng, n: int):
     return out
 
 
-BAD_FORMULAS = {}
+STRING_POOL = ["a", "", "x y", "it's", "in0 + 1", "1 +", "a*b", "f"]
+
+
+def formula_errors(fl) -> dict:
+    """Function.parse on the strings the hand-made calls use as formulas: formula -> model error kind (absent = parses)."""
+    out = {}
+    for f in STRING_POOL:
+        try:
+            fl.Function("f", f, load=True)
+        except Exception as ex:
+            out[f] = ERRKIND.get(type(ex).__name__, "EInternal")
+    return out
 
 
 def eval_variant(fl, alias, tree):
@@ -859,79 +964,86 @@ def eval_variant(fl, alias, tree):
 
 
 # ----------------------------------------------------------------------------------------------- Coq side
-def coq_env(st: State, fl) -> str:
+def coq_env(st, fl) -> str:
     wt = vlib.coq_list(f"({vlib.fhex(w)}, {cstr(fl.Op.str(float(w)))})" for w in st.weights.values())
     # float(token) for the tokens that occur
     toks = {fl.Op.str(float(w)) for w in st.weights.values()} | {"0.500", "0.250", "1e-3", "2", "nan"}
     pt = vlib.coq_list(f"({cstr(t)}, {vlib.fhex(float(t))})" for t in sorted(toks))
     pc = vlib.coq_list(f"({cstr(a)}, {cstr(b)})" for a, b in st.pascal.items())
+    ft = vlib.coq_list(f"({cstr(f)}, {k})" for f, k in formula_errors(fl).items())
     return f"""From VF Require Import Core GenSignatures PyRepr.
+Import ListNotations.
 Local Open Scope string_scope.
+Local Open Scope list_scope.
 Definition NF : Num float := NumF true [].
 Definition fmt_tbl : list (float * string) := {wt}.
 Definition parse_tbl : list (string * float) := {pt}.
 Definition pascal_tbl : list (string * string) := {pc}.
 Fixpoint lookup_fmt (t : list (float * string)) (x : float) : string :=
   match t with [] => "?" | (y, s) :: tl => if fsame x y then s else lookup_fmt tl x end.
-Definition bad_formula (f : string) : bool := String.eqb f "1 +" || String.eqb f "".
+Definition formula_tbl : list (string * err) := {ft}.
 Definition E : penv float := {{|
   reparse := fun x => x;
   fmt_w := lookup_fmt fmt_tbl;
   parse_w := fun s => assoc s parse_tbl;
-  formula_err := fun f => if bad_formula f then Some ESyntax else None;
+  formula_err := fun f => assoc f formula_tbl;
   rule_ok := fun _ _ a c => negb (String.eqb a "nope is b");
   pascal_case := fun s => match assoc s pascal_tbl with Some p => p | None => "?" end;
   atol := {vlib.fhex(fl.settings.atol)}; rtol := {vlib.fhex(fl.settings.rtol)} |}}.
 Definition veq := pyval_eqb fsame.
 Definition eeq := pyexpr_eqb fsame.
-Definition check_a (c : string * pyval float * pyexpr float * pyval float) : bool :=
-  let '(al, v, e, v2) := c in let a := alias_of al in
-  result_eqb eeq (@repr float NF E a v) (Ok e) && result_eqb veq (@eval float NF E a e) (Ok v2) && result_eqb veq (@normalize float NF E v) (Ok v2).
-Definition check_b (c : string * pyval float * list (pystmt float) * pyval float) : bool :=
-  let '(al, v, m, v2) := c in let a := alias_of al in
-  result_eqb (list_eqb (pystmt_eqb fsame)) (@encapsulate float NF E a v) (Ok m) && result_eqb veq (@run_module float NF E m) (Ok v2).
+Definition header : Type := (pystmt float * (string * string + string * list string))%type.
+Definition check_a (c : string * pyval float * pyexpr float * pyval float * option header) : bool :=
+  let '(al, v, e, v2, enc) := c in let a := alias_of al in
+  result_eqb eeq (@repr float NF E a v) (Ok e) && result_eqb veq (@eval float NF E a e) (Ok v2) && result_eqb veq (@normalize float NF E v) (Ok v2)
+  && match enc with
+     | None => true
+     | Some (imp, hd) =>
+         let m := [imp; match hd with inl (n, at_) => SClassInit n at_ e | inr (f, ann) => SDefReturn f ann e end] in
+         result_eqb (list_eqb (pystmt_eqb fsame)) (@encapsulate float NF E a v) (Ok m) && result_eqb veq (@run_module float NF E m) (Ok v2)
+     end.
 Definition check_c (c : string * pyexpr float * result (pyval float)) : bool :=
   let '(al, e, want) := c in result_eqb veq (@eval float NF E (alias_of al) e) want.
 """
 
 
 def run(ctx, build, verdict, ev):
+    import multiprocessing
+
     import fuzzylite as fl
 
     rng = ctx.rng
-    st = State()
     n_engines = ctx.n(200, 4000)
-    combos = [(a, m) for a in ALIASES for m in ("repr", "encapsulated")]
-    engines_for_model = 0
-    for i in range(n_engines):
-        engine, info = gen_engine(fl, rng)
-        st.count("engines:wild" if info["wild"] else "engines:sane")
-        for t in all_terms(engine):
-            st.count("term:" + type(t).__name__)
-        # components first: the engine has not been processed yet, every dump shows the freshly built state
-        alias_m = ALIASES[i % len(ALIASES)]
-        check_components(fl, ctx, verdict, st, engine, alias_m)
-        dump0, texts, rebuilt = check_engine(fl, ctx, verdict, st, engine, info, combos[i % len(combos)])
-        # model cases for the whole engine: one alias per engine (rotating), repr and encapsulated
-        try:
-            if (alias_m, "repr") in rebuilt:
-                st.cases_a.append(f"({cstr(alias_m)}, {dump0}, {expr_lit(parse_expr(texts[(alias_m, 'repr', False)]))}, {rebuilt[(alias_m, 'repr')]})")
-                st.index.append(("A", "engine", alias_m, texts[(alias_m, "repr", False)][:300]))
-            if (alias_m, "encapsulated") in rebuilt:
-                mod = parse_module(texts[(alias_m, "encapsulated", False)])
-                st.cases_b.append(f"({cstr(alias_m)}, {dump0}, {vlib.coq_list(stmt_lit(s) for s in mod)}, {rebuilt[(alias_m, 'encapsulated')]})")
-                st.index_b.append(("B", "engine", alias_m, texts[(alias_m, "encapsulated", False)][:300]))
-            engines_for_model += 1
-        except (Unparsable, DumpError, SyntaxError) as ex:
-            verdict.add_broken("correspondence", "C15:unparsable-engine", f"{type(ex).__name__}: {ex}")
-        if i < 3:
-            st.samples.append({"repr": texts[("fl", "repr", False)][:400], "wild": info["wild"]})
-    # ---- alias only changes prefixes: checked on the implementation's texts (all four aliases), independently of the model
-    # (done inside check_engine through exec/eval in a fresh namespace: a missing or wrong prefix is a NameError/AttributeError)
+    jobs = [(i, rng.getrandbits(64)) for i in range(n_engines)]
+    with multiprocessing.get_context("fork").Pool(min(vlib.NPROC, 12)) as pool:
+        sinks = pool.map(work_engine, jobs, chunksize=4)
+    st = Sink()
+    cases_a, cases_b, index_a, index_b, samples = [], [], [], [], []
+    for sk in sinks:
+        st.evaluations += sk.evaluations
+        st.oracle_violations += sk.oracle_violations
+        st.nontrivial += sk.nontrivial
+        st.f5_hits += sk.f5_hits
+        for k, v in sk.dist.items():
+            st.count(k, v)
+        for k, v in sk.formatted.items():
+            st.formatted[k] += v
+        st.weights.update(sk.weights)
+        st.pascal.update(sk.pascal)
+        for sig, what, rp in sk.violations:
+            verdict.add_violation(sig, what, rp)
+        for kind, name, detail in sk.broken:
+            verdict.add_broken(kind, name, detail)
+        cases_a += [c for c, _ in sk.cases_a]
+        index_a += [x for _, x in sk.cases_a]
+        cases_b += [c for c, _ in sk.cases_b]
+        index_b += [x for _, x in sk.cases_b]
+        if sk.sample and len(samples) < 3:
+            samples.append(sk.sample)
 
     # ---- hand-made constructor calls
-    variants = gen_variants(fl, rng, ctx.n(400, 6000))
-    index_c = []
+    variants = gen_variants(fl, rng, ctx.n(600, 8000))
+    cases_c, index_c = [], []
     unknown_exc = {}
     for alias, tree in variants:
         src, want, note = eval_variant(fl, alias, tree)
@@ -940,18 +1052,17 @@ def run(ctx, build, verdict, ev):
             unknown_exc[note] = unknown_exc.get(note, 0) + 1
             continue
         st.count("variant:" + ("ok" if want.startswith("(Ok") else want[5:-1]))
-        st.cases_c.append(f"({cstr(alias)}, {expr_lit(tree)}, {want})")
+        cases_c.append(f"({cstr(alias)}, {expr_lit(tree)}, {want})")
         index_c.append(("C", alias, src[:300], want[:200]))
     if unknown_exc:
         st.dist["variant:skipped-unmapped-exception"] = sum(unknown_exc.values())
 
     mism = []
     if not build.translation_errors:
-        groups = [("string * pyval float * pyexpr float * pyval float", "check_a", st.cases_a),
-                  ("string * pyval float * list (pystmt float) * pyval float", "check_b", st.cases_b),
-                  ("string * pyexpr float * result (pyval float)", "check_c", st.cases_c)]
-        bad, log = vlib.run_coq_cases(ctx.work, "c15", coq_env(st, fl), groups, chunk=ctx.n(60, 150))
-        index = st.index + st.index_b + index_c
+        groups = [("string * pyval float * pyexpr float * pyval float * option header", "check_a", cases_a),
+                  ("string * pyexpr float * result (pyval float)", "check_c", cases_c)]
+        bad, log = vlib.run_coq_cases(ctx.work, "c15", coq_env(st, fl), groups, chunk=ctx.n(100, 200))
+        index = index_a + index_c
         for k in bad:
             if k < 0:
                 verdict.add_broken("correspondence", "C15:coq-evaluation", log)
@@ -960,7 +1071,7 @@ def run(ctx, build, verdict, ev):
         if mism:
             verdict.add_broken("correspondence", f"PyRepr model vs implementation ({mism[0][0]}:{mism[0][1]})", f"model and implementation differ on {len(mism)} cases, first: {mism[:4]}")
     c = ev["coverage"]
-    c["evaluations"] = st.evaluations + len(st.cases_a) + len(st.cases_b) + len(st.cases_c)
+    c["evaluations"] = st.evaluations + len(cases_a) + len(cases_b) + len(cases_c)
     c["distinct_nontrivial"] = st.nontrivial
     c["rule"] = ("random engines built with the public constructors (40% with arbitrary finite doubles / +-inf as term parameters and NaN/inf ranges and defaults, 60% with terms inside the "
                  "variable's range), every term/norm/defuzzifier/activation class, descriptions with quotes/backslashes/non-ASCII, rule weights on the decimals grid; each engine exported under "
@@ -968,12 +1079,12 @@ def run(ctx, build, verdict, ev):
                  "non-trivial = engines whose 8-row output comparison ran (representable, no disabled rule) and produced at least one non-NaN output")
     c["distribution"] = dict(sorted(st.dist.items()))
     c["engines"] = n_engines
-    c["model_cases"] = {"repr_eval_normalize": len(st.cases_a), "encapsulated": len(st.cases_b), "constructor_variants": len(st.cases_c)}
+    c["model_cases"] = {"repr_eval_normalize": len(cases_a), "of_which_with_encapsulated_module": sum(1 for x in cases_a if not x.endswith(", None)")), "constructor_variants": len(cases_c)}
     c["formatted"] = st.formatted
     c["correspondence_mismatches"] = len(mism)
     c["oracle_violations"] = st.oracle_violations
     c["known_finding_hits_F5"] = st.f5_hits
-    c["samples"] = st.samples
+    c["samples"] = samples
     ev["assumptions"] += [
         "A-py: Python's parser/eval, reprlib, keyword binding and black are trusted; the model is about call trees (the implementation's text is parsed with Python's ast)",
         "A-fmt: repr(float) round-trips through Python's parser (checked empirically: rebuilt parameters are compared bit for bit), Op.str/float() results for rule weights are taken from the implementation",
